@@ -366,7 +366,7 @@ def obligations(tier):
                                   name='pipe4_%s_%s_%s_any' % (STAGE_NAMES[c0], STAGE_NAMES[c1], STAGE_NAMES[c2])))
     for w in range(4):
         obs.append(Ob(first_eq, fixed={'which': w}, pre=rng, name='first_eq_%d' % w))
-    lk = '(' + ' or '.join('c1 == %d' % k for k in LAZY_KINDS) + ')'
+    lk = '(' + ' or '.join('c1 == %d' % k for k in LAZY_KINDS + [9]) + ')'       # flatten (9) as a second stage
     for c0 in LAZY_KINDS:
         obs.append(Ob(lazy, fixed={'c0': c0}, pre=lk + ' and 0 <= k <= 3 and -1 <= a <= 3 and -1 <= thr <= 3',
                       name='lazy_%s_any' % STAGE_NAMES[c0], timeout=150))
